@@ -433,6 +433,35 @@ def safety_findings(res_by_id):
     return out
 
 
+def confirmed_safety(ctx, exe, vectors, res_by_id, limit=12):
+    """safety findings that reproduce when the vector is re-run ALONE (fresh process, leak check after
+    the vector, generous watchdog).  An event that does not reproduce (e.g. a watchdog expiry on a loaded
+    machine) is recorded in the evidence notes and not reported as a violation."""
+    found = safety_findings(res_by_id)
+    if not found:
+        return []
+    byid = {v["id"]: v for v in vectors}
+    out, nsig = [], {}
+    for vid, sig, text in sorted(found):
+        nsig[sig] = nsig.get(sig, 0) + 1
+        if nsig[sig] > 2 or len(out) >= limit:       # same signature: two witnesses are enough
+            continue
+        v = byid.get(vid)
+        if v is None:                                # e.g. the too-many-crashes marker
+            out.append((vid, sig, text))
+            continue
+        v2 = dict(v)
+        v2["alarm"] = max(60, int(v.get("alarm", 0)))
+        r2, _ = run_harness(ctx, exe, "confirm", [v2], timeout=1800, leak_every=1, procs=1)
+        again = safety_findings(r2)
+        if again:
+            out.append((vid, again[0][1], again[0][2]))
+        else:
+            ctx.notes.setdefault("unreproduced_safety_events", []).append({"id": vid, "signature": sig})
+            ctx.log("safety event %s on %s did not reproduce alone: not reported" % (sig, vid))
+    return out
+
+
 # ---------------------------------------------------------------------------
 # trace validation
 def validate_trace(ctx, name, events, timeout=900):
